@@ -10,6 +10,7 @@ CONSTANTS
   RestoreOnReturn = TRUE
   EmbRestoreAll = TRUE
   SuperCheckFirst = TRUE
+  AncestryWalk = TRUE
   GuardCanonical = TRUE
   RegisterAfterCreate = TRUE
   NsCachesInit = TRUE
